@@ -571,7 +571,8 @@ func runC14(c *sim.Ctx) {
 	sameKind := cfg.Chance(1, 3) // many tasks of one kind contend for the same pool
 	k0 := cfg.Choose(len(taskKindNames))
 	if hot {
-		sameKind, k0 = true, 9
+		// mostly the shared maps; otherwise one pooled kind contended by every task
+		sameKind, k0 = true, []int{9, 9, 9, 2, 3, 4, 7, 0, 1}[cfg.Choose(9)]
 		if ntasks < 3 {
 			ntasks = 3
 			kinds = make([]int, ntasks)
